@@ -154,7 +154,13 @@ pub fn gen_packet(r: &mut Rng, chans: &[u8], hostile: bool) -> Packet {
         }
         2 | 3 => {
             let num_slices = if hostile { *r.pick(&[0usize, 1, 2, 3, 1000, 1_000_000, 1_000_001, usize::MAX / 1200 - 1, usize::MAX / 1200, usize::MAX / 1200 + 1, (1 << 62) - 1, usize::MAX >> 2]) } else { *r.pick(&[1usize, 2, 3, 1000, 1_000_000]) };
-            let slice_index = if hostile { *r.pick(&[0usize, 1, 2, 3, 999, 1000, usize::MAX >> 2]) } else { r.below(num_slices as u64) as usize };
+            let slice_index = if hostile && num_slices > 0 && r.chance(1, 3) {
+                num_slices - 1 // the last slice: the only one whose length is not fixed
+            } else if hostile {
+                *r.pick(&[0usize, 1, 2, 3, 999, 1000, usize::MAX >> 2])
+            } else {
+                r.below(num_slices as u64) as usize
+            };
             let plen = if hostile { *r.pick(&[0usize, 1, 1199, 1200, 1201, 1300]) } else { *r.pick(&[1usize, 600, 1200]) };
             let slice = Slice { message_id: boundary_u62(r), slice_index, num_slices, payload: Bytes::from(r.bytes(plen)) };
             if r.chance(1, 2) {
@@ -371,7 +377,7 @@ fn gen_conflicting_slices(r: &mut Rng, dst: &Side) -> Vec<Vec<u8>> {
     for _ in 0..r.range(1, 3) {
         let num = *r.pick(&[first_n, first_n + 1, first_n + 4, 1000, 1_000_000]);
         let idx = *r.pick(&[0usize, first_n.saturating_sub(1), first_n, first_n + 1, num - 1]);
-        let plen = *r.pick(&[1usize, 600, 1200, 1200]);
+        let plen = *r.pick(&[1usize, 600, 1200, 1200, 1201, 1300]);
         if let Some(bb) = mk(r, num, idx.min(num - 1), plen) {
             out.push(bb);
         }
